@@ -46,8 +46,12 @@ def _extract_params_from_symb(
         symb.name
         for symb in statements.before_odes.full_expression(Expr.symbol(symbol_name)).free_symbols
     }
-    theta_name = terms.intersection(pset.names).pop()
-    return pset[theta_name]
+    # NOTE: Take the first parameter in the order of the model. Popping from the set
+    #  would make the choice depend on the hash randomisation of the interpreter
+    theta_names = [name for name in pset.names if name in terms]
+    if not theta_names:
+        raise KeyError(symbol_name)
+    return pset[theta_names[0]]
 
 
 def _find_noncov_theta(model, paramsymb, full=False):
